@@ -876,9 +876,15 @@ pub fn o_metrics(p: &Program, t: &Trace) -> Vec<Finding> {
         }
         // counters restart at clear(): only count what was called after the last clear() returned;
         // an operation overlapping a clear may land on either side, then the equations are skipped
-        let last_clear = t.recs.iter().filter(|r| r.op == Op::Clear && r.ret < s.at).map(|r| (r.call, r.ret)).max();
-        let since = last_clear.map(|c| c.1).unwrap_or(0);
-        let overlapping = last_clear.map(|(c, rt)| t.recs.iter().any(|r| r.op != Op::Clear && r.call < rt && r.ret > c)).unwrap_or(false);
+        // the clear that returned last, and every clear concurrent with it: any of them may have been
+        // the one whose wipe came last
+        let last_clear = t.recs.iter().filter(|r| r.op == Op::Clear && r.ret < s.at).map(|r| (r.ret, r.call)).max();
+        let since = last_clear.map(|c| c.0).unwrap_or(0);
+        let overlapping = last_clear
+            .map(|(_, lcall)| {
+                t.recs.iter().filter(|c| c.op == Op::Clear && c.ret < s.at && c.ret > lcall).any(|c| t.recs.iter().any(|r| r.op != Op::Clear && r.call < c.ret && r.ret > c.call))
+            })
+            .unwrap_or(false);
         let lookups = t.recs.iter().filter(|r| is_lookup(r) && r.call > since && r.ret < s.at).count() as u64;
         if !overlapping && m.hits + m.misses != lookups {
             out.push(f("metrics-hits-misses", format!("hits {} + misses {} != {} lookups since the last clear", m.hits, m.misses, lookups)));
